@@ -96,6 +96,14 @@ CHECKS = {
          "Every directive sequence of length <= 3 (thorough 4) over the 7 directives and an unknown one, at an edge field, a property field and the root field; ~80 malformed single directives; ~110 document shapes (0-3 operations of each kind, fragments, variable definitions, "
          "operation directives, root selections, inline fragments, aliases, unterminated text); ~20 parameter literals at three positions. Verdict: Ok or a typed error, never a panic. The automaton's predicted parse-level class is compared and reported as MODEL-DRIFT only.",
          "Below GraphQL token level (arbitrary bytes) is async-graphql-parser's territory and is not enumerated; panic-freedom itself is observed, not model-checked."),
+ "C24": (EX, "6/C24", "TLC checks Threads.tla (every interleaving of threads over once-cells and shared immutable data gives the sequential results); the real Arc<Schema> / Arc<IndexedQuery> are shared by 8 barrier-released threads in fresh processes and compared with the sequential run",
+         "Model: 3 threads x 3 once-cells x 2 operations, all interleavings: results equal the sequential ones, each cell initialised exactly once and never rewritten. Code: in each of 24 (thorough 300) fresh processes 8 threads race to "
+         "initialise the crate's lazily initialised statics, compile 12 queries concurrently against one shared schema and execute shared compiled queries; IR and rows must equal the sequential ones. Send + Sync is enforced at compile time of the harness.",
+         "No schedule of the real threads is observable: final-state conformance only."),
+ "C25": (FE, "6/C25", "Checker.tla gives the probe set of check_adapter_invariants for each schema; one fault per resolver site and mode is injected into a generic contract-abiding adapter and the real checker must panic exactly at probed sites (TLC judge)",
+         "For each schema: the fault-free adapter must pass; a non-null property / a neighbour / a true coercion for a context without an active vertex, and swapped (thorough: reversed, dropped, duplicated) contexts, injected at every property "
+         "(incl. __typename), edge and interface->implementer coercion site must be caught exactly when the site is in the documented probe set (edges with a required parameter without default are documented as unchecked).",
+         "Single faults only; the fault-free adapter is schema-generic (it returns null / nothing / false for the vertex-less contexts the checker sends)."),
 }
 NOT_YET ="check not built yet at this commit (see DESIGN.md section 6 for the planned decision procedure)"
 
